@@ -40,6 +40,7 @@ func renderObj(kvs []okv) string {
 type serOpts struct {
 	g         *G
 	compact   bool // use a @context with prefixes / @vocab / @base
+	vocab     bool // the context also sets @vocab to the namespace: bare local names for properties and classes
 	embed     bool
 	embedded  map[string]bool // node ids whose triples were (partly) placed inside a parent
 	remaining map[string]*Node
@@ -51,6 +52,9 @@ func (o *serOpts) iri(full string) string {
 		return full
 	}
 	if strings.HasPrefix(full, NS) {
+		if o.vocab && o.g.coin(0.5) {
+			return strings.TrimPrefix(full, NS) // vocabulary-relative
+		}
 		if o.g.coin(0.5) {
 			return "ex:" + strings.TrimPrefix(full, NS)
 		}
@@ -175,7 +179,7 @@ func (o *serOpts) nodeObj(part *Node, depth int, onPath map[string]bool) string 
 func hasTriples(n *Node) bool { return n != nil && (len(n.Types) > 0 || len(n.Props) > 0) }
 
 func (g *G) serialise(gr Graph, compact, embed bool) C05Doc {
-	o := &serOpts{g: g, compact: compact, embed: embed, embedded: map[string]bool{}, remaining: map[string]*Node{}}
+	o := &serOpts{g: g, compact: compact, vocab: compact && g.coin(0.4), embed: embed, embedded: map[string]bool{}, remaining: map[string]*Node{}}
 	order := g.r.Perm(len(gr))
 	for i := range gr {
 		n := gr[i]
@@ -198,6 +202,9 @@ func (g *G) serialise(gr Graph, compact, embed bool) C05Doc {
 	ctx := ""
 	if compact {
 		ctx = `"@context":{"ex":"` + NS + `","@base":"` + NodeNS + `"},`
+		if o.vocab {
+			ctx = `"@context":{"@vocab":"` + NS + `","ex":"` + NS + `","@base":"` + NodeNS + `"},`
+		}
 	}
 	form := "array"
 	var text string
@@ -222,6 +229,9 @@ func (g *G) serialise(gr Graph, compact, embed bool) C05Doc {
 	}
 	if compact {
 		form += "+context"
+	}
+	if o.vocab {
+		form += "+vocab"
 	}
 	return C05Doc{Text: text, Form: form, Fragment: !compact}
 }
@@ -282,7 +292,14 @@ func genC05(g *G, n int, out io.Writer) {
 	for k, l := range lengths {
 		enc.Encode(deepChainCase(g, 100000+k, l))
 	}
+	savedPool := propPool
+	defer func() { propPool = savedPool }()
 	for i := 0; i < n; i++ {
+		propPool = savedPool
+		if i%3 == 1 {
+			// local names that are also names the system knows (built-in prefix names, keywords without the @)
+			propPool = []string{"p0", g.pick([]string{"data", "core", "doc", "meta"}), g.pick([]string{"shacl", "apiContract", "type", "id"}), "p3"}
+		}
 		gr := g.graph(2+g.n(6), 0.55)
 		var hubLink, hubVal string
 		if g.coin(0.6) && len(gr) >= 4 {
